@@ -17,6 +17,7 @@ package main
 import (
 	"context"
 	"encoding/json"
+	"errors"
 	"fmt"
 	"io"
 	"log/slog"
@@ -70,6 +71,8 @@ func (eng) Rule(mode string) string {
 		"histories of 8-70 operations: SetTimer (fresh, repeated, at/below the watermark), AdvanceWatermark by one runner or by all runners " +
 		"(monotone, sometimes regressing, sometimes an unknown sender), SetTimer between two yields of an advance, " +
 		"consumers that break out of the range loop after k = 0..3 items, " +
+		"storage read faults (table reads fail from the n-th one on) while fresh or drained caches reload: the reload survives or fails loudly (then the store and registry are rebuilt), " +
+		"scale-in cases (params.scalein): two operators with their own DBs own the two halves of the key groups, one busy (flushed and compacted), one quiet; after timers fired ONE DB is opened from both checkpoint handles, " +
 		"Restore over the same DB or over a DB re-opened from a checkpoint, and a final advance of every upstream to MaxInt64 (pending set). " +
 		"Non-trivial: some group's pending timers exceeded its cache budget at some moment, at least one restore, and at least two advances yielded timers; distinct by hash of the case."
 }
@@ -78,6 +81,7 @@ func (eng) Rule(mode string) string {
 
 type opJ struct {
 	Op     string  `json:"op"`              // set | adv | advp | restore | barrier | crash
+	N      int     `json:"n,omitempty"`     // peekfault: table reads fail from the n-th one on; adv/set through the operator with checkpoints: fail the n-th handler call of this op
 	K      int     `json:"k,omitempty"`     // advp: the consumer breaks out of the range loop in the body of the k-th item (0: never iterates)
 	Key    []byte  `json:"key,omitempty"`   // set
 	T      int64   `json:"t,omitempty"`     // set: UnixNano; adv: watermark UnixNano
@@ -278,6 +282,9 @@ func (g *genState) restore() {
 		how = "ckpt"
 	}
 	g.emit(opJ{Op: "restore", How: how})
+	if g.r.Chance(1, 3) { // a read fault while the fresh caches are loaded
+		g.emit(opJ{Op: "peekfault", N: g.r.Intn(3)})
+	}
 	g.known = map[int]bool{}
 	g.wmOf = map[int]int64{}
 	for _, s := range g.srids {
@@ -368,8 +375,10 @@ func genCase(r *hx.Rand, idx int, tier string) *hx.Case {
 			}
 		case x < 75:
 			g.genAdv(false)
-		case x < 90:
+		case x < 88:
 			g.genAdv(true)
+		case x < 91:
+			g.emit(opJ{Op: "peekfault", N: r.Intn(3)})
 		default:
 			g.restore()
 		}
@@ -399,7 +408,7 @@ func (eng) Generate(mode, tier string, r *hx.Rand) []*hx.Case {
 			cs = append(cs, c)
 		}
 	}
-	return cs
+	return append(cs, genScaleInCases(tier, r)...)
 }
 
 // ---------- execution ----------
@@ -438,6 +447,8 @@ func (e eng) Execute(mode string, c *hx.Case) (*hx.Result, error) {
 			r.res, r.err = e.executeCk(c)
 		} else if mode == "c10op" {
 			r.res, r.err = e.executeOp(c)
+		} else if getInt(c.Params, "scalein", 0) > 0 {
+			r.res, r.err = e.executeScaleIn(c)
 		} else {
 			r.res, r.err = e.execute(mode, c)
 		}
@@ -457,7 +468,8 @@ func (eng) execute(mode string, c *hx.Case) (*hx.Result, error) {
 	cf := cfgOf(c)
 	ks := partitioning.NewKeySpace(cf.Count, cf.NRanges)
 	rng := ks.KeyGroupRanges()[cf.Range]
-	fs := storage.NewMemoryFilesystem()
+	fault := &readFault{from: -1}
+	fs := faultFS{FileSystem: storage.NewMemoryFilesystem(), f: fault}
 	opts := dkv.DBOptions{FileSystem: fs, MemTableSize: cf.MemTable, Logger: quiet}
 	db := dkv.Open(opts, nil)
 	// every DB object stays reachable until the case is over: a collected DB deletes table files that a DB re-opened
@@ -469,8 +481,10 @@ func (eng) execute(mode string, c *hx.Case) (*hx.Result, error) {
 	for i, id := range cf.SrIDs {
 		srNames[i] = srName(id)
 	}
+	var store *operator.TimerStore
 	newReg := func() *operator.TimerRegistry {
-		return operator.NewTimerRegistry(operator.NewTimerStore(db, ks, rng, cf.Cache), srNames)
+		store = operator.NewTimerStore(db, ks, rng, cf.Cache)
+		return operator.NewTimerRegistry(store, srNames)
 	}
 	reg := newReg()
 
@@ -568,6 +582,29 @@ func (eng) execute(mode string, c *hx.Case) (*hx.Result, error) {
 				coqOps = append(coqOps, fmt.Sprintf("Advance %s %s", hx.CoqN(uint64(o.Sr)), hx.CoqZ(o.T)))
 			} else {
 				coqOps = append(coqOps, fmt.Sprintf("AdvanceSet %s %s %s", hx.CoqN(uint64(o.Sr)), hx.CoqZ(o.T), hx.CoqList(dur, "nat * bytes * Z")))
+			}
+		case "peekfault":
+			// a storage read fault while the timer caches are (re)loaded: table reads fail from the n-th one on during a
+			// read-only GetEarliest. The reload either survives (then nothing may be missing later) or fails loudly
+			// (panic: the operator would crash and be restarted on its database = a new store and registry).
+			failed := false
+			fault.arm(int64(max(o.N, 0)))
+			func() {
+				defer func() {
+					if p := recover(); p != nil {
+						failed = true
+					}
+				}()
+				store.GetEarliest()
+			}()
+			hit := fault.disarm()
+			if failed {
+				reg = newReg()
+				nRestore++
+				coqOps = append(coqOps, "Restore")
+				tags["reload-failed-loudly"] = true
+			} else if hit {
+				tags["reload-survived-read-fault"] = true
 			}
 		case "restore":
 			if err := db.WaitOnTasks(); err != nil {
@@ -904,6 +941,65 @@ func (eng) executeOp(c *hx.Case) (*hx.Result, error) {
 	}
 	sort.Strings(tl)
 	return &hx.Result{Term: term, Nontrivial: overflow && nYielding >= 2, Tags: tl, Observed: observed}, nil
+}
+
+// ---------- storage read faults ----------
+
+// readFault: while armed, ReadAt on a table file fails from the from-th read on
+type readFault struct {
+	mu    sync.Mutex
+	from  int64 // -1: not armed
+	reads int64
+	hit   bool
+}
+
+func (f *readFault) arm(from int64) {
+	f.mu.Lock()
+	f.from, f.reads, f.hit = from, 0, false
+	f.mu.Unlock()
+}
+func (f *readFault) disarm() (hit bool) {
+	f.mu.Lock()
+	defer f.mu.Unlock()
+	f.from = -1
+	return f.hit
+}
+func (f *readFault) fails() bool {
+	f.mu.Lock()
+	defer f.mu.Unlock()
+	if f.from < 0 {
+		return false
+	}
+	f.reads++
+	if f.reads > f.from {
+		f.hit = true
+		return true
+	}
+	return false
+}
+
+type faultFS struct {
+	storage.FileSystem
+	f *readFault
+}
+
+func (fs faultFS) New(path string) storage.File {
+	return faultFile{File: fs.FileSystem.New(path), f: fs.f}
+}
+func (fs faultFS) Open(path string) storage.File {
+	return faultFile{File: fs.FileSystem.Open(path), f: fs.f}
+}
+
+type faultFile struct {
+	storage.File
+	f *readFault
+}
+
+func (f faultFile) ReadAt(p []byte, off int64) (int, error) {
+	if strings.HasSuffix(f.Name(), ".sst") && f.f.fails() {
+		return 0, errors.New("injected read fault")
+	}
+	return f.File.ReadAt(p, off)
 }
 
 func main() { hx.Main(eng{}) }
